@@ -227,6 +227,96 @@ pub fn run(ctx: &Ctx, rep: &mut Report) {
         }
         rep.add_space(&format!("E2: size {}: {}^{} states x {} setter actions, every constructor form", n, k, n, k * n as u64), &acc, t0, "closed graph: every setter history of any length over W");
     }
+    // E1: every constructor that assembles a container from parts or from single words x every slot x ALL 2^32 words
+    // (a sentinel value used internally by a constructor is one exact word out of 2^32)
+    {
+        let t0 = Instant::now();
+        let kind = monitor::kind_id("constructor-word");
+        // (form name, size)
+        let forms: [(&str, usize); 5] = [("Two::new", 2), ("Three(pub [..])", 3), ("Five::new", 5), ("Six::from_1_and_2_and_3", 6), ("Seven::new(Two, Five)", 7)];
+        let mut jobs = Vec::new();
+        for (fi, (_, n)) in forms.iter().enumerate() {
+            for slot in 0..*n {
+                for chunk in 0..16u64 {
+                    jobs.push((fi, slot, chunk));
+                }
+            }
+        }
+        let accs = par_parts(jobs.len(), |j| {
+            let (fi, slot, chunk) = jobs[j];
+            let (fname, n) = forms[fi];
+            let mut acc = Acc::new(1);
+            let base: Vec<u32> = (0..n).map(|i| 0x0101_0101u32.wrapping_mul(i as u32 + 1) ^ 0x00F0_0F00).collect();
+            monitor::beat(kind, &[fi as u64, slot as u64, chunk]);
+            let build = |w: &[u32]| -> Vec<u32> { AnyHand::constructor_forms(w).into_iter().find(|(name, _)| *name == fname).map(|(_, h)| h.to_vec()).unwrap_or_default() };
+            // quick tier: the words x and x << 16 for every 16-bit x (2 blocks per chunk 0 only); thorough: all 2^32 words
+            let thorough = ctx.tier.thorough();
+            if !thorough && chunk > 0 {
+                return acc;
+            }
+            let lo = chunk << 28;
+            let mut blk = lo;
+            let mut w = base.clone();
+            let hi = if thorough { lo + (1 << 28) } else { 2 << 16 };
+            while blk < hi {
+                let r = guard(|| {
+                    let mut bad = false;
+                    let mut ww = [0u32; 7];
+                    ww[..n].copy_from_slice(&base);
+                    for x in blk..blk + (1 << 16) {
+                        ww[slot] = if thorough || blk == 0 { x as u32 } else { (x as u32) << 16 };
+                        // direct construction (no allocation in the hot loop)
+                        let got: [u32; 7] = match fi {
+                            0 => {
+                                let t = ckc_rs::cards::two::Two::new(ww[0], ww[1]).to_arr();
+                                [t[0], t[1], 0, 0, 0, 0, 0]
+                            }
+                            1 => {
+                                let t = ckc_rs::cards::three::Three([ww[0], ww[1], ww[2]]).to_arr();
+                                [t[0], t[1], t[2], 0, 0, 0, 0]
+                            }
+                            2 => {
+                                let t = ckc_rs::cards::five::Five::new(ww[0], ww[1], ww[2], ww[3], ww[4]).to_arr();
+                                [t[0], t[1], t[2], t[3], t[4], 0, 0]
+                            }
+                            3 => {
+                                let t = Six::from_1_and_2_and_3(ww[0], ckc_rs::cards::two::Two::new(ww[1], ww[2]), ckc_rs::cards::three::Three([ww[3], ww[4], ww[5]])).to_arr();
+                                [t[0], t[1], t[2], t[3], t[4], t[5], 0]
+                            }
+                            _ => Seven::new(ckc_rs::cards::two::Two::new(ww[0], ww[1]), ckc_rs::cards::five::Five::new(ww[2], ww[3], ww[4], ww[5], ww[6])).to_arr(),
+                        };
+                        bad |= got[..n] != ww[..n];
+                    }
+                    bad
+                });
+                if matches!(r, Ok(false)) {
+                    acc.cases += 1 << 16;
+                    acc.calls += 1 << 16;
+                    acc.nontrivial += 1 << 16;
+                } else {
+                    for x in blk..blk + (1 << 16) {
+                        w[slot] = if thorough || blk == 0 { x as u32 } else { (x as u32) << 16 };
+                        acc.cases += 1;
+                        acc.calls += 1;
+                        let ok = matches!(guard(|| build(&w)), Ok(v) if v == w);
+                        if !ok {
+                            // replayable as a history whose initial words are these (the judge checks every constructor form)
+                            let mut words = vec![n as u64];
+                            words.extend(w.iter().map(|x| *x as u64));
+                            match confirm(judge, Case::new("history", &words)) {
+                                Some(v) => acc.violate(v),
+                                None => super::unreproduced("C19 constructor mismatch not reproduced"),
+                            }
+                        }
+                    }
+                }
+                blk += 1 << 16;
+            }
+            acc
+        });
+        let acc = Acc::merged(accs);
+        rep.add_space(if ctx.tier.thorough() { "constructors from parts / single words (Two::new, Three(..), Five::new, Six::from_1_and_2_and_3, Seven::new) x every slot x ALL 2^32 words" } else { "constructors from parts / single words x every slot x all 16-bit patterns at shifts 0 and 16" }, &acc, t0, "the constructed container holds the given words in the given slots");
+    }
     // E1: setters x word families
     {
         let t0 = Instant::now();
